@@ -219,7 +219,7 @@ def invariant_obligations(ctx, facts, rule=None):
             atoms = [models.canon_atom(a) for _, a in atoms_at(b, bb)]
             ok = any((c[0] == "callres" and c[1] in mags and c[-1] in ("Ok?", "Ok")) or (c[0] == "callres" and c[1] == "std::result::Result::<T, E>::ok" and c[-1] in ("Ok?", "Some") and any(m in str(c[2]) for m in mags)) for c in atoms)
             arg = norm(b.resolve_operand(b.term(bb)["args"][1]))
-            ctx.ob(R("KEYCHECK"), "%s: the key check succeeded on every path to the search" % facts.fns[k]["name"], ok, fn=k, site=b.site(bb), detail="; ".join(show_canon(c) for c in atoms)[:200])
+            ctx.ob(R("KEYCHECK"), "%s: the key check succeeded on every path to the search" % facts.fns.get(k, {}).get("name", k), ok, fn=k, site=b.site(bb), detail="; ".join(show_canon(c) for c in atoms)[:200])
     # public methods of Qualifiers touching the Vec with a length-changing or index-taking op must derive the index from get_index/entry
     for (k, bb, p, item, t) in sites:
         f = facts.fns.get(k)
@@ -243,12 +243,24 @@ def invariant_obligations(ctx, facts, rule=None):
     t = norm(facts.body(PC).resolve_local(0))
     ok = False
     det = nshow(t)[:240]
-    if t[0] == "agg" and t[1][2] == "Some" and t[2][0][0] == "call" and t[2][0][1] == "std::iter::Iterator::cmp":
-        a, bb_ = t[2][0][2]
+    from .lowercase import is_lower_closure
+
+    def cmp_term(x):
+        """self.0.chars().cmp(other.chars().flat_map(to_lowercase)): the whole-string comparison against the lower-cased probe"""
+        if not (x[0] == "call" and x[1] == "std::iter::Iterator::cmp" and len(x[2]) == 2):
+            return False
+        a, bb_ = x[2]
         stored = a[0] == "call" and a[1].endswith("::chars") and models.field_path(a[2][0]) == "0"
-        from .lowercase import is_lower_closure
         probe = bb_[0] == "call" and bb_[1] == "std::iter::Iterator::flat_map" and bb_[2][0][0] == "call" and bb_[2][0][1].endswith("::chars") and bb_[2][0][2][0] == ("arg", 2) and is_lower_closure(facts, bb_[2][1])
-        ok = stored and probe
+        return stored and probe
+
+    def is_equal_const(x):
+        while x[0] == "named":
+            x = x[3]
+        return (x[0] == "enum" and x[1] == "std::cmp::Ordering" and x[2] == "Equal") or (x[0] == "agg" and x[1][1:3] == ("std::cmp::Ordering", "Equal"))
+
+    if t[0] == "agg" and t[1][2] == "Some":
+        ok = cmp_term(t[2][0])
     ctx.ob(R("CMP-LOWER"), "partial_cmp = Some(self.0.chars().cmp(other.chars().flat_map(to_lowercase)))", ok, fn=PC, site=fn_site(facts, PC), detail=det)
     # equality of keys (used by the derived PartialEq of Qualifiers / PurlParts / GenericPurl) must be the comparator's equality
     pe = [k for k, f in facts.fns.items() if f.get("impl_trait_def") == "std::cmp::PartialEq" and f.get("impl_self") == "qualifiers::QualifierKey" and f.get("name") == "eq" and not f.get("derived")]
@@ -263,6 +275,19 @@ def invariant_obligations(ctx, facts, rule=None):
         if et[0] == "call" and et[1] == "std::iter::Iterator::eq" and len(et[2]) == 2:
             a, b_ = et[2]
             okeq = a[0] == "call" and a[1].endswith("::chars") and models.field_path(a[2][0]) == "0" and b_[0] == "call" and b_[1] == "std::iter::Iterator::flat_map" and b_[2][0][0] == "call" and b_[2][0][2][0] == ("arg", 2)
+        if et[0] == "call" and et[1].endswith("::unwrap_or_default") and et[2][0][0] == "phi":
+            # the same with Option::map expanded (inlined view): None -> false, Some(o) -> o.is_eq()
+            mem = et[2][0][1]
+            somes = [m for m in mem if m[0] == "agg" and m[1][2] == "Some"]
+            nones = [m for m in mem if m[0] == "agg" and m[1][2] == "None"]
+            if len(somes) == 1 and len(somes) + len(nones) == len(mem):
+                v = somes[0][2][0]
+                okeq = v[0] == "call" and v[1] == "std::cmp::Ordering::is_eq" and v[2][0][0] == "some" and v[2][0][1][0] == "call" and v[2][0][1][1] in (PC, "std::cmp::PartialOrd::partial_cmp") and v[2][0][1][2] == (("arg", 1), ("arg", 2))
+        # the comparison itself (a helper shared with partial_cmp, inlined) tested for Equal
+        if et[0] == "call" and et[1] == "std::cmp::Ordering::is_eq" and cmp_term(et[2][0]):
+            okeq = True
+        if et[0] == "call" and et[1] == "<std::cmp::Ordering as std::cmp::PartialEq>::eq" and len(et[2]) == 2:
+            okeq = okeq or (cmp_term(et[2][0]) and is_equal_const(et[2][1])) or (cmp_term(et[2][1]) and is_equal_const(et[2][0]))
         if not okeq:
             # matches!(self.partial_cmp(other), Some(Ordering::Equal)) and its spellings: true exactly on the path where the
             # comparator returned Some(Equal)
